@@ -50,6 +50,30 @@ GSpec == GInit /\ [][GNext]_gvars
 
 GenInv == PrintT(<<"CASE", ToJson([g |-> g] @@ CaseOf(world))>>)
 
+(* ---------------- calls on a database that already carries marks ---------------- *)
+\* the same structures; hres[q][m+1] = <<Lower, UpperH, IdealH, AsIsH>> for the earlier
+\* marks q (bit mask over the pages, q >= 1) and the flag mask m:
+\*   Lower  - what the statement demands whatever the earlier marks are
+\*   UpperH - the most it allows (full fixpoint from flagged \cup earlier marks)
+\*   IdealH - closure from flagged \cup earlier marks + redirect neighbours (the repaired code)
+\*   AsIsH  - deviation MarkedNotReseeded (only the pages flagged now are sources)
+VerdictsH(W) ==
+  LET n == Len(W.pages)
+      R == IncRel(W, FALSE)
+      D == RedirRel(W) IN
+  [q \in 1..(2 ^ n - 1) |->
+     LET P == TitleSet(W, FlagSet(n, q)) IN
+     [i \in 1..(2 ^ n) |->
+        LET F == TitleSet(W, FlagSet(n, i - 1)) IN
+        <<Mask(W, LowerR(R, D, F)), Mask(W, FullFixR(R, D, F \cup P)),
+          Mask(W, LowerR(R, D, F \cup P)), Mask(W, AsIsHR(R, D, F, P))>>]]
+HCaseOf(W) ==
+  [pages |-> [k \in 1..Len(W.pages) |->
+                [title |-> W.pages[k].title, redirect |-> W.pages[k].redirect,
+                 uses |-> SetToSeq(W.pages[k].uses)]],
+   hres |-> VerdictsH(W)]
+GenHInv == PrintT(<<"HCASE", ToJson([g |-> g] @@ HCaseOf(world))>>)
+
 (* ---------------- sampled larger worlds (TLC -simulate) ---------------- *)
 \* a random walk builds a world on 8 named pages: every step adds a written name
 \* or turns a page into a redirect; the state after MaxLen steps is
@@ -83,4 +107,32 @@ SimCase(W) ==
    flags |-> Mask(W, Flagged(W)),
    res |-> <<Mask(W, Lower(W)), Mask(W, Upper(W)), Mask(W, AsIs(W))>>]
 SimInv == (steps = MaxLen) => PrintT(<<"SIM", ToJson(SimCase(world))>>)
+
+\* the same walk on a database in which 1..3 pages carry an earlier mark
+SHInit ==
+  \E F \in {X \in SUBSET (1..8) : Cardinality(X) \in {0, 1, 2}} :
+    \E P \in {X \in SUBSET (1..8) : Cardinality(X) \in {1, 2, 3}} :
+      /\ AInit([pages |-> [k \in 1..8 |-> [World0.pages[k] EXCEPT !.flag = k \in F]],
+                pre |-> {TitleOf(Names8, k) : k \in P}])
+      /\ steps = 0 /\ g = [n |-> 8, combo |-> <<"S", "simh">>]
+SetPageH(k, p) == world' = [world EXCEPT !.pages = [world.pages EXCEPT ![k] = p]]
+SHNext ==
+  /\ steps < MaxLen
+  /\ steps' = steps + 1
+  /\ \/ \E i \in 1..8, j \in 1..8, kd \in SimKinds :
+          /\ world.pages[i].redirect = NoRedirect
+          /\ SetPageH(i, [world.pages[i] EXCEPT !.uses = @ \cup {Spell(kd, Names8[j])}])
+     \/ \E i \in 1..8, j \in 1..8 :
+          /\ i # j /\ world.pages[i].redirect = NoRedirect
+          /\ SetPageH(i, [world.pages[i] EXCEPT !.redirect = TitleOf(Names8, j), !.uses = {}])
+  /\ UNCHANGED <<g, marked, pc, ci, imap, stack, todo, amemo, cur, com, memo>>
+SHSpec == SHInit /\ [][SHNext]_svars
+SimHCase(W) ==
+  [pages |-> [k \in 1..Len(W.pages) |->
+                [title |-> W.pages[k].title, redirect |-> W.pages[k].redirect,
+                 uses |-> SetToSeq(W.pages[k].uses)]],
+   flags |-> Mask(W, Flagged(W)),
+   pre |-> Mask(W, PreOf(W)),
+   hres |-> <<Mask(W, Lower(W)), Mask(W, UpperH(W)), Mask(W, IdealH(W)), Mask(W, AsIsH(W))>>]
+SimHInv == (steps = MaxLen) => PrintT(<<"SIMH", ToJson(SimHCase(world))>>)
 =============================================================================
